@@ -459,7 +459,7 @@ impl World for Transport {
     }
     fn budget(&self, tier: Tier) -> (u64, u64) {
         match tier {
-            Tier::Quick => (1500, 40),
+            Tier::Quick => (12000, 40),
             Tier::Thorough => (60_000, 900),
         }
     }
